@@ -7,6 +7,18 @@ Open Scope R_scope.
 
 Ltac unfv := unfold dot, cross, vsub, vadd, vneg, vscale, vdivs, vx, vy, vz; cbn [fst snd add sub mul div opp Rops].
 
+(* the guards replace only an exactly vanishing measure; they are inactive in particular above the machine epsilon *)
+Lemma guard_zero_off x : Rltb x (eps52 Rops) = false -> guard_zero Rops x = x.
+Proof.
+  intros H. apply Rltb_false in H. pose proof eps52_pos. unfold guard_zero. cbn [eqb zero Rops].
+  destruct (Reqb x 0) eqn:E; [apply Reqb_true in E; lra|reflexivity].
+Qed.
+Lemma guard_abs_off x : Rltb (Rabs x) (eps52 Rops) = false -> guard_abs Rops x = x.
+Proof.
+  intros H. apply Rltb_false in H. pose proof eps52_pos. unfold guard_abs, guard_zero. cbn [eqb zero Rops].
+  destruct (Reqb x 0) eqn:E; [apply Reqb_true in E; subst; rewrite Rabs_R0 in H; lra|reflexivity].
+Qed.
+
 (* ------------------------------------------------------------------ triangles: gradient *)
 Definition tri_guard_off (v : list V3) (t : tri) : Prop :=
   let '(e0, e1, e2) := tri_edges Rops v t in
@@ -23,7 +35,7 @@ Theorem tria_grad1_is_spec v f a b c : tri_guard_off v (a, b, c) ->
 Proof.
   unfold tri_guard_off, tria_grad1, tri_edges, tri_pts.
   generalize (getv Rops v a) (getv Rops v b) (getv Rops v c). intros p0 p1 p2.
-  rewrite code_normal_is_tri_N. intros Hg. unfold guard_len. cbn [ltb one Rops]. rewrite Hg.
+  rewrite code_normal_is_tri_N. intros Hg. rewrite (guard_zero_off _ Hg). cbn [one Rops].
   apply Rltb_false in Hg. assert (E := eps52_pos).
   unfold norm, norm2 in *. cbn [sqrtK Rops] in *. fold (tri_NN p0 p1 p2) in *.
   set (L := sqrt (tri_NN p0 p1 p2)) in *.
@@ -67,7 +79,7 @@ Theorem tria_div1_adjoint v f a b c X : tri_guard_off v (a, b, c) ->
 Proof.
   unfold tri_guard_off, tria_div1, tri_edges, tri_pts.
   generalize (getv Rops v a) (getv Rops v b) (getv Rops v c). intros p0 p1 p2.
-  rewrite code_normal_is_tri_N. intros Hg. unfold guard_len. cbn [ltb one Rops]. rewrite Hg.
+  rewrite code_normal_is_tri_N. intros Hg. rewrite (guard_zero_off _ Hg). cbn [one Rops].
   apply Rltb_false in Hg. assert (E := eps52_pos).
   unfold norm, norm2 in *. cbn [sqrtK Rops] in *. fold (tri_NN p0 p1 p2) in *.
   unfold tri_area. set (L := sqrt (tri_NN p0 p1 p2)) in *.
@@ -92,7 +104,7 @@ Theorem tria_div2_adjoint v f a b c X : tri_guard_off v (a, b, c) ->
 Proof.
   unfold tri_guard_off, tria_div2_1, tri_edges, tri_pts.
   generalize (getv Rops v a) (getv Rops v b) (getv Rops v c). intros p0 p1 p2.
-  rewrite code_normal_is_tri_N. intros Hg. unfold guard_len. cbn [ltb one Rops]. rewrite Hg.
+  rewrite code_normal_is_tri_N. intros Hg. rewrite (guard_zero_off _ Hg). cbn [one Rops].
   apply Rltb_false in Hg. assert (E := eps52_pos).
   unfold norm, norm2 in *. cbn [sqrtK Rops] in *. fold (tri_NN p0 p1 p2) in *.
   unfold tri_area. set (L := sqrt (tri_NN p0 p1 p2)) in *.
@@ -193,7 +205,7 @@ Theorem tet_grad1_is_spec v f a b c d : tet_guard_off v (a, b, c, d) ->
 Proof.
   unfold tet_guard_off, tet_grad1, tet_pts.
   generalize (getv Rops v a) (getv Rops v b) (getv Rops v c) (getv Rops v d). intros p0 p1 p2 p3.
-  intros Hg. unfold guard_abs. cbn [ltb absK one Rops]. rewrite Hg.
+  intros Hg. rewrite (guard_abs_off _ Hg). cbn [one Rops].
   apply Rltb_false in Hg. assert (E := eps52_pos). rewrite code_det in *.
   assert (Hd : tet_det p0 p1 p2 p3 <> 0).
   { intros Z. rewrite Z, Ropp_0, Rabs_R0 in Hg. lra. }
